@@ -121,9 +121,68 @@ def oracle(c, inp, out):
     return None
 
 
+def gen_pile(rng):
+    """many mutually interpenetrating epithelial cells: every cell has nodes against faces of every other one, so that the
+    threads of the contact phase keep adding to the same force accumulators"""
+    nc = 16
+    lvl = 2
+    cells = []
+    for i in range(nc):
+        # a stack along z, every cell pressed into its neighbours by a fifth of a radius
+        c = (rng.uniform(-0.05, 0.05) * cc.R, rng.uniform(-0.05, 0.05) * cc.R, i * 1.6 * cc.R)
+        cells.append(cc.sphere(lvl, cc.R, c, rng))
+    edge = 2 * cc.R * math.sin(math.radians(31.7)) / (2 ** lvl)
+    # adhesion range tiny (no coupling short-circuits the repulsion), repulsion range about two edges
+    return dict(kind="pile", cells=cells, classes=[0] * nc, ids=list(range(nc)), lmin=edge * 0.8, cut_adh=edge * 1e-3, cut_rep=edge * 2.0, place="origin")
+
+
+def threads_stage(ck, rng, fails):
+    """the contact phase under 16 threads, repeated: every run must satisfy the same rules (no net force, ranges, signs).  The
+    forces themselves may differ from the single-threaded run: which node couples to which depends on the order in which the
+    cells are processed, and the property does not fix that order"""
+    impl = vlib.build_driver("contact", contact=1)
+    nrep = 6 if ck.tier == "quick" else 40
+    piles = [gen_pile(rng) for _ in range(3 if ck.tier == "quick" else 12)]
+    nrun = 0
+    # on an idle machine the 16 threads run undisturbed and a lost update between a plain read-modify-write and an atomic add
+    # of another thread needs a window of nanoseconds; competing processes make the scheduler preempt the threads in the
+    # middle of their work (measured: 0 of 80 runs expose a seeded lost update without load, 6 of 8 with 8 spinning processes)
+    import subprocess
+    burners = [subprocess.Popen(["sh", "-c", "while :; do :; done"]) for _ in range(10)]
+    try:
+        nrun = _threads_runs(ck, impl, piles, nrep, fails)
+    finally:
+        for b in burners:
+            b.kill()
+        for b in burners:
+            b.wait()
+    return nrun
+
+
+def _threads_runs(ck, impl, piles, nrep, fails):
+    nrun = 0
+    for c in piles:
+        ref = vlib.run([impl], input=cc.case_line(c) + "\n", timeout=1800, env={"OMP_NUM_THREADS": "1"}).stdout.strip()
+        if not ref or ref.startswith("FATAL"):
+            continue
+        rsec = ref.split(" # "); rout = cc.parse_state(rsec[3]); rin = cc.parse_in(rsec[1])
+        fmax = max([abs(x) for cell in rout for n in cell for x in n[1]] + [0.0])
+        c16 = dict(c, threads=16)
+        for rep in range(nrep):
+            o = vlib.run([impl], input=cc.case_line(c16) + "\n", timeout=1800, env={"OMP_NUM_THREADS": "16", "OMP_DYNAMIC": "false"}).stdout.strip()
+            nrun += 1
+            if not o or o.startswith("FATAL"):
+                fails.append((None, "contact_phase_completes", "the contact phase with 16 threads died on a pile of %d cells" % len(c["cells"]), c16)); break
+            out = cc.parse_state(o.split(" # ")[3])
+            f = oracle(c16, rin, out)
+            if f:
+                fails.append((None, f.split(" ")[0], "pile of %d cells, 16 threads, run %d: %s" % (len(c["cells"]), rep, f), c16)); break
+    return nrun
+
+
 def run(ck):
     ntis, nprobe, nsingle = (24, 60, 10) if ck.tier == "quick" else (300, 1500, 100)
-    ck.cov["rule"] = ("generated tissues (as C06) plus probes: a tiny tetrahedron at signed distances -3..3 cut-offs from a face centre of a large icosphere, class pairs epithelial/lumen/ECM/nucleus/static in both roles, three placements; single cells of arbitrary id, spherical and dented through themselves; default contact model, single thread; non-trivial = cases with a force or a coupling")
+    ck.cov["rule"] = ("generated tissues (as C06) plus probes: a tiny tetrahedron at signed distances -3..3 cut-offs from a face centre of a large icosphere, class pairs epithelial/lumen/ECM/nucleus/static in both roles, three placements; single cells of arbitrary id, spherical and dented through themselves; default contact model, single thread, plus piles of 8-16 mutually interpenetrating cells run repeatedly with 16 threads (same oracle: no net force, ranges, signs); non-trivial = cases with a force or a coupling")
     ok = ck.proofs()
     rng = random.Random(ck.seed * 7331 + 7)
     cases = [cc.gen_tissue(rng) for _ in range(ntis)] + [gen_probe(rng) for _ in range(nprobe)] + [gen_single(rng) for _ in range(nsingle)]
@@ -143,6 +202,7 @@ def run(ck):
         if f:
             fails.append((i, f.split(" ")[0], f))
         lines.append(cc.model_line(c, sec[0], sec[1])); idx.append(i)
+    nthr = threads_stage(ck, rng, tfails := [])
     mo = cc.run_model(lines) if lines else []
     for i, l in zip(idx, mo):
         ms = l.split(" # ")
@@ -151,7 +211,8 @@ def run(ck):
         d = cc.same_state(parsed[i][1], cc.parse_state(ms[1]))
         if d:
             broken.append((i, d))
-    ck.cov["evaluations"] = len(cases)
+    ck.cov["evaluations"] = len(cases) + nthr
+    ck.notes["runs_with_16_threads"] = nthr
     ck.cov["distinct_nontrivial"] = nontriv
     ck.cov["traces_validated_against_impl"] = len(lines) - len(broken)
     ck.notes["input_distribution"] = dist
@@ -163,6 +224,11 @@ def run(ck):
             continue
         seen.add(key)
         ck.report(dict(input=cc.case_line(cases[i]), kind=cases[i]["kind"], probe=cases[i].get("probe")), oracle=key, key="contact:" + key, what=what)
+    for _, key, what, c16 in tfails:
+        if key in seen:
+            continue
+        seen.add(key)
+        ck.report(dict(input=cc.case_line(c16), kind="pile", threads=16), oracle=key, key="contact:" + key, what=what)
     if not ck.violations:
         if not ok:
             ck.report(dict(log=ck.proof_res["log"][-3000:]), unchecked="Properties_C07.vo", what="proof obligations of C07 no longer check")
